@@ -3,6 +3,11 @@ import DFV.Lemmas.C18Cbrt
 import DFV.Lemmas.C18State
 import DFV.Lemmas.C18Examples
 import DFV.Lemmas.C18Quarter
+import DFV.Lemmas.C18Algebra
+import DFV.Lemmas.C18AutoN
+import DFV.Lemmas.C18QuarterObj
+import DFV.Lemmas.C18Align
+import DFV.Lemmas.C18LatComp
 /-!
 # C18 — arbitrary rotations rotate the vectors and resample the positions consistently
 
@@ -28,6 +33,37 @@ two-sided inverse, and scalar products (lengths, angles) are preserved. -/
 theorem transpose_is_inverse (Q : M3) (h : Q.IsRot) (u v : V3) :
     Q.apply (Q.tr.apply v) = v ∧ Q.tr.apply (Q.apply v) = v ∧ (Q.apply u).dot (Q.apply v) = u.dot v :=
   ⟨h.apply_tr_apply v, h.tr_apply_apply v, h.dot_apply u v⟩
+
+/-- **modified Rodrigues parameters** (`from_mrp`): EVERY rational parameter vector gives a proper
+rotation with rational entries (no exceptional vectors); `p = 0` is the identity and `−p` the
+inverse rotation. -/
+theorem mrp_is_rotation (p : V3) :
+    (M3.ofMrp p).IsRot ∧ M3.ofMrp ⟨0, 0, 0⟩ = M3.one ∧ M3.ofMrp ⟨-p.x, -p.y, -p.z⟩ = (M3.ofMrp p).tr :=
+  ⟨ofMrp_isRot p, ofMrp_zero, ofMrp_neg p⟩
+
+/-- **vector alignment** (`rotate("align_vector", initial=i, final=f)`, with
+`fixed = np.cross(i, f)`): for vectors of equal length that are not parallel the model's matrix
+is a proper rotation that takes `initial` to `final` and keeps their cross product fixed — "the
+cross product defines the rotation vector" — and swapping the two gives the inverse rotation. -/
+theorem align_vector_spec (i f : V3) (hlen : i.dot i = f.dot f) (hv : i.cross f ≠ ⟨0, 0, 0⟩) :
+    (M3.ofAlign i f).IsRot ∧ (M3.ofAlign i f).apply i = f ∧ (M3.ofAlign i f).apply (i.cross f) = i.cross f ∧
+    M3.ofAlign f i = (M3.ofAlign i f).tr :=
+  ⟨(ofAlign_spec i f hlen hv).1, (ofAlign_spec i f hlen hv).2.1, (ofAlign_spec i f hlen hv).2.2, ofAlign_swap i f hlen⟩
+
+example : (⟨1, 2, 2⟩ : V3).dot ⟨1, 2, 2⟩ = (⟨3, 0, 0⟩ : V3).dot ⟨3, 0, 0⟩ ∧ (⟨1, 2, 2⟩ : V3).cross ⟨3, 0, 0⟩ ≠ ⟨0, 0, 0⟩ := by
+  decide +kernel
+
+/-- **Euler sequences of quarter-turn angles** (`from_euler` with angles `k·π/2`, any length, any
+axes): always a proper rotation; an intrinsic (upper-case) sequence is the reversed extrinsic
+(lower-case) one; and the extrinsic sequence is the ordered product — later rotations on the
+left — that a history of `rotate` calls with the single axis rotations accumulates. -/
+theorem euler_quarter_sequences (intr : Bool) (seq : List (Nat × Int)) :
+    (eulerQ intr seq).IsRot ∧ eulerQ true seq = eulerQ false seq.reverse ∧
+    eulerQ false seq = prodL (seq.map fun x => Raxis x.1 x.2) :=
+  ⟨eulerQ_isRot intr seq, eulerQ_intrinsic_reverse seq, eulerQ_extrinsic_prodL seq⟩
+
+/-- `from_euler("zyx", [π/2, π, −π/2])` vs `from_euler("ZYX", …)`: different rotations -/
+example : eulerQ false [(2, 1), (1, 2), (0, -1)] ≠ eulerQ true [(2, 1), (1, 2), (0, -1)] := by decide +kernel
 
 /-! ## the bounding box (`_calculate_new_region`) -/
 
@@ -70,6 +106,71 @@ theorem bbox (f : Fld) (R : M3) (reg : Region) (h : newRegion f R = .ok reg) :
       !decide (0 ≤ R.e a 2 * f.mesh.region.edge 2), ?_⟩
     rw [newRegion_lo f R reg h a ha, corner_attains_neg R f.mesh a]
     unfold boxLo; ring
+
+/-- **bbox is the smallest box.** Any axis-aligned box that contains the eight rotated corners
+contains the region of the rotated field. -/
+theorem bbox_minimal (f : Fld) (R : M3) (reg : Region) (h : newRegion f R = .ok reg) (lo' hi' : Nat → Rat)
+    (hbox : ∀ s0 s1 s2 a, a < 3 →
+      lo' a ≤ centreAt f.mesh a + (R.apply (cornerRel f.mesh s0 s1 s2)).get a ∧
+      centreAt f.mesh a + (R.apply (cornerRel f.mesh s0 s1 s2)).get a ≤ hi' a) :
+    ∀ a, a < 3 → lo' a ≤ reg.lo a ∧ reg.hi a ≤ hi' a := by
+  intro a ha
+  obtain ⟨_, _, hhi, hlo⟩ := bbox f R reg h
+  obtain ⟨s0, s1, s2, e1⟩ := hhi a ha
+  obtain ⟨t0, t1, t2, e2⟩ := hlo a ha
+  exact ⟨e2 ▸ (hbox t0 t1 t2 a ha).1, e1 ▸ (hbox s0 s1 s2 a ha).2⟩
+
+/-- **the box contains the whole rotated region**, not only its corners: every point `x` of the
+original region, rotated about the centre, lies in the region of the rotated field (for any
+matrix). -/
+theorem bbox_contains_region (f : Fld) (R : M3) (reg : Region) (h : newRegion f R = .ok reg) (x : V3)
+    (hx : ∀ a, a < 3 → f.mesh.region.lo a ≤ x.get a ∧ x.get a ≤ f.mesh.region.hi a) (a : Nat) (ha : a < 3) :
+    reg.lo a ≤ centreAt f.mesh a + (R.apply (x.sub (centreV f.mesh))).get a ∧
+    centreAt f.mesh a + (R.apply (x.sub (centreV f.mesh))).get a ≤ reg.hi a := by
+  rw [newRegion_lo f R reg h a ha, newRegion_hi f R reg h a ha, M3.apply_get]
+  unfold boxLo boxHi sumAbs
+  simp only [absR_eq_abs]
+  have key : ∀ (r d e : Rat), |d| ≤ e / 2 → |r * d| ≤ |r * e| / 2 := by
+    intro r d e hd
+    have he : 0 ≤ e := by have := abs_nonneg d; linarith
+    rw [abs_mul, abs_mul, abs_of_nonneg he]
+    have := mul_le_mul_of_nonneg_left hd (abs_nonneg r)
+    linarith
+  have hd : ∀ j, j < 3 → |(x.sub (centreV f.mesh)).get j| ≤ f.mesh.region.edge j / 2 := by
+    intro j hj
+    rw [V3.get_sub]
+    unfold centreV
+    rw [V3.get_ofFn _ _ hj, abs_le]
+    obtain ⟨h1, h2⟩ := hx j hj
+    unfold centreAt Region.edge
+    constructor <;> linarith
+  have k0 := key (R.e a 0) _ _ (hd 0 (by omega))
+  have k1 := key (R.e a 1) _ _ (hd 1 (by omega))
+  have k2 := key (R.e a 2) _ _ (hd 2 (by omega))
+  simp only [V3.get] at k0 k1 k2
+  rw [abs_le] at k0 k1 k2
+  simp only [edgesV, V3.ofFn]
+  constructor <;> linarith [k0.1, k0.2, k1.1, k1.2, k2.1, k2.2]
+
+example : ∀ a, a < 3 → exF.mesh.region.lo a ≤ (⟨1, 4, 3/2⟩ : V3).get a ∧ (⟨1, 4, 3/2⟩ : V3).get a ≤ exF.mesh.region.hi a := by
+  decide +kernel
+
+/-- **the bounding box always exists and is not smaller than the region.** For a well-formed
+mesh and a proper rotation the `Region` constructor never refuses (no edge collapses), every
+new edge is positive, and the volume of the box is at least the volume of the original region. -/
+theorem bbox_accepted (f : Fld) (hm : Mesh3 f.mesh) (R : M3) (hR : R.IsRot) :
+    ∃ reg, newRegion f R = .ok reg ∧ (∀ a, a < 3 → 0 < reg.edge a) ∧
+      f.mesh.region.edge 0 * f.mesh.region.edge 1 * f.mesh.region.edge 2 ≤ reg.edge 0 * reg.edge 1 * reg.edge 2 := by
+  have h := newRegion_accepts f hm hR
+  obtain ⟨e0, e1, e2⟩ := edgesV_pos f.mesh hm
+  have hE : ∀ a, a < 3 → (boxRegion f R).edge a = sumAbs R (edgesV f.mesh) a := by
+    intro a ha
+    unfold Region.edge; rw [newRegion_lo f R _ h a ha, newRegion_hi f R _ h a ha]; unfold boxLo boxHi; ring
+  refine ⟨_, h, fun a ha => by rw [hE a ha]; exact sumAbs_pos hR _ e0 e1 e2 a ha, ?_⟩
+  rw [hE 0 (by omega), hE 1 (by omega), hE 2 (by omega)]
+  exact prod_sumAbs_ge hR (edgesV f.mesh) e0.le e1.le e2.le
+
+example : Mesh3 exF.mesh ∧ exR.IsRot := ⟨exWF.1, by decide +kernel⟩
 
 /-- the bounding box has default axis names and units (the code builds a fresh `Region`) -/
 theorem bbox_metadata (f : Fld) (R : M3) (reg : Region) (h : newRegion f R = .ok reg) :
@@ -209,6 +310,52 @@ theorem rot_general (f : Fld) (hf : WF f) (R : M3) (n? : Option (List Nat)) (g :
 /-- non-vacuity: a scalar field and a vector field with permuted mapping are rotated -/
 example : WF exF ∧ rotateOnce exF exR (some [5, 5, 3]) = .ok (rotated exF exR [] exNM) := ⟨exWF, exRot⟩
 example : WF exV ∧ rotateOnce exV exR (some [5, 5, 3]) = .ok (rotated exV exR [1, 0, 2] exNM) := ⟨exWFV, exRotV⟩
+
+/-- **`ordered_idx` is a permutation.** For a 3-vector field with three labels on distinct axis
+names and a mapping in which no label occurs twice, a successful component order lists three
+distinct component positions — so the model's `invAt` is its inverse permutation (`invAt ord (ord[a]) = a`) and equals what
+the code-shaped `argsort` (`argsortL`: indices sorted by key) returns. Holds for all six
+mappings, cyclic ones included. -/
+theorem ordered_idx_is_permutation (f : Fld) (ord : List Nat) (h : ordFor f = .ok ord) (h3 : f.nvdim = 3)
+    (hl : (f.vdims.getD []).length = 3)
+    (hdims : ∀ a b, a < 3 → b < 3 → a ≠ b → f.mesh.region.dims.getD a "" ≠ f.mesh.region.dims.getD b "")
+    (hkey : ∀ x ∈ f.vmap, ∀ y ∈ f.vmap, x.1 = y.1 → x = y) :
+    PermOrd ord ∧ (∀ a, a < 3 → invAt ord (ord.getD a 0) = a) ∧
+    (ord.length = 3 → ∀ c, c < 3 → (argsortL ord).getD c 0 = invAt ord c) := by
+  have hp := ordFor_perm f ord h h3 hl hdims hkey
+  exact ⟨hp, fun a ha => invAt_ord hp a ha, fun hl3 c hc => argsort_eq_invAt hp hl3 c hc⟩
+
+/-- the cyclic mapping `p ↦ y, q ↦ z, r ↦ x` gives the cyclic order `[2, 0, 1]` -/
+example : ordFor { exV with vmap := [("p", "y"), ("q", "z"), ("r", "x")] } = .ok [2, 0, 1] := okIs_sound _ _ (by decide +kernel)
+
+/-- **vectors go through the permutation and back.** For a 3-vector field (any one-to-one
+mapping) the component of the stored value that belongs to spatial axis `a` — position `ord[a]` —
+is component `a` of `R` applied to the interpolated original vector listed in spatial order
+`(v[ord 0], v[ord 1], v[ord 2])`: forward permutation, rotation, inverse permutation. -/
+theorem rot_vector_components (f : Fld) (hf : WF f) (h3 : f.nvdim = 3)
+    (hdims : ∀ a b, a < 3 → b < 3 → a ≠ b → f.mesh.region.dims.getD a "" ≠ f.mesh.region.dims.getD b "")
+    (hkey : ∀ x ∈ f.vmap, ∀ y ∈ f.vmap, x.1 = y.1 → x = y)
+    (R : M3) (n? : Option (List Nat)) (g : Fld) (h : rotateOnce f R n? = .ok g) :
+    ∃ ord, ordFor f = .ok ord ∧ PermOrd ord ∧ ∀ idx a, a < 3 →
+      (g.data.get idx).getD (ord.getD a 0) 0 = (R.apply (spatial ord (origAt f (backPos f R g.mesh idx)))).get a := by
+  obtain ⟨ord, ho, hv⟩ := rot_general f hf R n? g h
+  have hl : (f.vdims.getD []).length = 3 := by rcases hf.2 with h1 | ⟨_, hl⟩ <;> [omega; exact hl]
+  have hp := ordFor_perm f ord ho h3 hl hdims hkey
+  refine ⟨ord, ho, hp, ?_⟩
+  intro idx a ha
+  rw [hv idx, h3]
+  exact rotVal_spatial' R hp _ a ha
+
+/-- **algebra of the cell-value rotation** (any permutation `ord`): the identity leaves values
+alone, a product rotates twice (later factor on the left acts last), the transpose of a rotation
+undoes it, and the Euclidean scalar product — hence the length of every vector — is preserved. -/
+theorem cell_value_rotation_laws (ord : List Nat) (hp : PermOrd ord) (v w : List Rat) (hv : v.length = 3) (A B : M3) :
+    rotVal 3 M3.one ord v = v ∧ rotVal 3 (A.mul B) ord v = rotVal 3 A ord (rotVal 3 B ord v) ∧
+    (A.IsRot → rotVal 3 A.tr ord (rotVal 3 A ord v) = v) ∧
+    (A.IsRot → (spatial ord (rotVal 3 A ord v)).dot (spatial ord (rotVal 3 A ord w)) = (spatial ord v).dot (spatial ord w)) ∧
+    (spatial ord v).dot (spatial ord v) = v.getD 0 0 * v.getD 0 0 + v.getD 1 0 * v.getD 1 0 + v.getD 2 0 * v.getD 2 0 :=
+  ⟨rotVal_one hp v hv, rotVal_mul A B hp v, fun hA => rotVal_inverse hA hp v hv, fun hA => rotVal_dot hA hp v w,
+   spatial_normsq hp v⟩
 
 /-- **rot_general, interior form.** If the back-rotated centre lies between the centres of
 cells `k` and `k+1` on every axis, the interpolant is the eight-cell trilinear formula with
@@ -386,65 +533,174 @@ theorem rot_metadata (f : Fld) (R : M3) (n : List Nat) (g : Fld) (h : rotateOnce
   · exact e5
   · exact e2
 
-/-! ## quarter turns on cubic cells coincide with the lattice rotation of C12 -/
-
-/-- **rot_quarter_is_rot90** (quarter turn about the third axis, `k = 1`). If the cells are
-square in the rotated plane and the two cell counts are swapped, the region is the original
-one with the two edge lengths swapped about the same centre, every target centre is rotated
-back onto a source centre, and the stored value is the rotated vector of the cell that
-`np.rot90(array, 1, axes=(0, 1))` — the array map of C12's `Field.rotate90` — puts there. -/
-theorem rot_quarter_is_rot90 (f : Fld) (hf : WF f) (hc : f.mesh.cellAt 0 = f.mesh.cellAt 1)
-    (hs : f.data.shape = [f.mesh.nAt 0, f.mesh.nAt 1, f.mesh.nAt 2])
-    (hlen : ∀ idx, (f.data.get idx).length = f.nvdim)
-    (g : Fld) (h : rotateOnce f Rz (some [f.mesh.nAt 1, f.mesh.nAt 0, f.mesh.nAt 2]) = .ok g) :
-    (g.mesh.region.lo 0 = centreAt f.mesh 0 - f.mesh.region.edge 1 / 2 ∧
-     g.mesh.region.hi 0 = centreAt f.mesh 0 + f.mesh.region.edge 1 / 2 ∧
-     g.mesh.region.lo 1 = centreAt f.mesh 1 - f.mesh.region.edge 0 / 2 ∧
-     g.mesh.region.hi 1 = centreAt f.mesh 1 + f.mesh.region.edge 0 / 2 ∧
-     g.mesh.region.lo 2 = f.mesh.region.lo 2 ∧ g.mesh.region.hi 2 = f.mesh.region.hi 2) ∧
-    ∃ ord, ordFor f = .ok ord ∧
-      ∀ i j k, i < f.mesh.nAt 1 → j < f.mesh.nAt 0 → k < f.mesh.nAt 2 →
-        g.data.get [i, j, k] = rotVal f.nvdim Rz ord ((T.rot90 f.data 0 1 1).get [i, j, k]) := by
-  obtain ⟨reg, nm, ord, hreg, hmk, ho, hg⟩ := rotateOnce_ok_inv f Rz _ g h
+/-- **automatic cell counts.** Without `n` the stored field has the counts of
+`_calculate_new_n` — the rounded cube roots of `E_i³·Πl / (l_i³·dV)` — and for every proper
+rotation of a well-formed field each of them is at least one (the rounded quantity is ≥ 1: the
+bounding box of the rotated cell is at least as large as the cell), so the `Mesh` constructor
+cannot refuse them. -/
+theorem rot_metadata_auto (f : Fld) (hm : Mesh3 f.mesh) (R : M3) (hR : R.IsRot) (g : Fld) (h : rotateOnce f R none = .ok g) :
+    newRegion f R = .ok g.mesh.region ∧ g.mesh.n = autoN f R g.mesh.region ∧
+    (∀ i, i < 3 → g.mesh.nAt i = roundCbrt (autoX3 f R g.mesh.region i) ∧ 1 ≤ autoX3 f R g.mesh.region i ∧ 1 ≤ g.mesh.nAt i) ∧
+    g.valid.get = (fun _ => true) ∧ g.nvdim = f.nvdim ∧ g.vdims = f.vdims ∧ g.vmap = f.vmap ∧ g.unit = none := by
+  obtain ⟨reg, nm, ord, hr, hmk, _, hg⟩ := rotateOnce_ok_inv f R none g h
   subst hg
   obtain ⟨e1, e2, _, _, _⟩ := mkN?_ok_inv reg _ nm hmk
+  simp only [Option.getD_none] at e2
+  have hreg : (rotated f R ord nm).mesh.region = reg := e1
+  have hn : (rotated f R ord nm).mesh.n = autoN f R reg := e2
+  refine ⟨by rw [hreg]; exact hr, by rw [hreg]; exact hn, ?_, rfl, rfl, rfl, rfl, rfl⟩
+  intro i hi
+  rw [hreg]
+  have hx := autoX3_ge_one f hm hR reg hr i hi
+  have hni : (rotated f R ord nm).mesh.nAt i = roundCbrt (autoX3 f R reg i) := by
+    unfold Mesh.nAt; rw [hn]; unfold autoN; rw [getD_tab _ _ _ _ hi]
+  refine ⟨hni, hx, ?_⟩
+  rw [hni]
+  have := roundCbrt_pos _ hx
+  omega
+
+example : isOk (rotateOnce exF exR none) = true := by decide +kernel
+
+/-! ## quarter turns and the other lattice rotations coincide with the lattice rotation of C12 -/
+
+/-- **quarter-turn matrices.** For every coordinate plane `(p, q)` and all integers `k`, `l`:
+`Rq p q k` is a proper rotation; turning by `k` and then by `l` is `Rq p q (k + l)` (the later
+turn multiplies from the left); only `k mod 4` matters; a multiple of four turns is the
+identity; the reverse turn is the transpose. -/
+theorem quarter_matrix_laws (p q : Nat) (hp : p < 3) (hq : q < 3) (hpq : p ≠ q) (k l : Int) :
+    (Rq p q k).IsRot ∧ (Rq p q l).mul (Rq p q k) = Rq p q (k + l) ∧ Rq p q (k % 4) = Rq p q k ∧
+    (k % 4 = 0 → Rq p q k = M3.one) ∧ Rq p q (-k) = (Rq p q k).tr :=
+  ⟨Rq_isRot p q k hp hq hpq, Rq_mul p q hp hq hpq k l, Rq_mod4 p q k, Rq_four p q hp hq hpq k, Rq_neg p q hp hq hpq k⟩
+
+/-- the old special case: the quarter turn about the third axis -/
+example : Rq 0 1 1 = Rz := by decide +kernel
+
+/-- **C12's corner map is this matrix.** `Region.rotate90`'s coordinate map (`T.rotCoord`, model of
+C12) about any reference point is `ref + Rq p q k · (P − ref)`. -/
+theorem rotCoord_is_matrix_action (P ref : List Rat) (p q : Nat) (k : Int) (hp : p < 3) (hq : q < 3) (hpq : p ≠ q)
+    (a : Nat) (ha : a < 3) :
+    T.rotCoord P ref p q k a = ref.getD a 0 + ((Rq p q k).apply ((V3.ofList P).sub (V3.ofList ref))).get a :=
+  rotCoord_eq_apply P ref p q k hp hq hpq a ha
+
+/-- **all lattice rotations copy cells** (the 24 proper ones and their mirror images). If `R`
+is a signed permutation matrix `e_j ↦ s_j e_{π j}` and `n` is left to the code or given as the
+permuted cell counts, then — for ANY cell sizes — the automatic counts are the permuted counts,
+the region is the original one with permuted edge lengths about the same centre, and every
+target cell stores the rotated value of exactly one source cell: index `idx_{π j}` on axis `j`,
+counted from the far end where `s_j = −1`. No interpolation error, no zero fill. -/
+theorem rot_lattice_copies_cells (f : Fld) (hf : WF f) (hlen : ∀ idx, (f.data.get idx).length = f.nvdim)
+    {R : M3} {π : Nat → Nat} {s : Nat → Rat} (hL : IsLat R π s) (n? : Option (List Nat))
+    (hn : n? = none ∨ n? = some (tab 3 fun i => f.mesh.nAt (pinv π i))) (g : Fld) (h : rotateOnce f R n? = .ok g) :
+    g.mesh.n = (tab 3 fun i => f.mesh.nAt (pinv π i)) ∧
+    (∀ i, i < 3 → g.mesh.region.lo i = centreAt f.mesh i - f.mesh.region.edge (pinv π i) / 2 ∧
+                  g.mesh.region.hi i = centreAt f.mesh i + f.mesh.region.edge (pinv π i) / 2) ∧
+    ∃ ord, ordFor f = .ok ord ∧ ∀ idx, (∀ i, i < 3 → idx.getD i 0 < f.mesh.nAt (pinv π i)) →
+      g.data.get idx = rotVal f.nvdim R ord
+        (f.data.get [latSrc f.mesh.nAt π s idx 0, latSrc f.mesh.nAt π s idx 1, latSrc f.mesh.nAt π s idx 2]) := by
+  have h' : rotateOnce f R (some (tab 3 fun i => f.mesh.nAt (pinv π i))) = .ok g := by
+    rcases hn with e | e
+    · rw [← lat_rotateOnce_none f hf.1 hL, ← e]; exact h
+    · rw [← e]; exact h
+  obtain ⟨reg, nm, ord, hreg, hmk, ho, hg⟩ := rotateOnce_ok_inv f R _ g h'
+  obtain ⟨e1, e2, _, _, _⟩ := mkN?_ok_inv reg _ nm hmk
   simp only [Option.getD_some] at e2
-  have hq := quarter_region f hf.1 reg hreg
-  rw [← e1] at hq
-  refine ⟨hq, ord, ho, ?_⟩
-  intro i j k hi hj hk
-  rw [rotated_data, rot90_get f.data _ _ _ hs]
-  have hv : f.nvdim = 1 ∨ (f.nvdim = 3 ∧ ∀ a, a < 3 → ord.getD a 0 < 3) := by
-    rcases hf.2 with h1 | ⟨h3, hl⟩
-    · exact Or.inl h1
-    · right
-      refine ⟨h3, ?_⟩
+  obtain ⟨ord', ho', hv⟩ := lat_values f hf hlen hL _ rfl g h'
+  refine ⟨by rw [hg]; exact e2, ?_, ord', ho', ?_⟩
+  · intro i hi
+    have := lat_region f hf.1 hL reg hreg i hi
+    rw [hg]; show nm.region.lo i = _ ∧ nm.region.hi i = _
+    rw [e1]; exact this
+  · intro idx hidx
+    apply hv idx
+    intro i hi
+    rw [getD_tab _ _ _ _ hi]; exact hidx i hi
+
+/-- **rot_quarter_is_rot90** — every coordinate plane, every integer `k`, any cell sizes, `n`
+automatic or given as the turned counts. The cell counts are C12's `rotN`, the region corners
+are the ones `Region.rotate90` computes about the centre (`min`/`max` of the turned corners),
+and the value stored at `[i, j, l]` is the quarter-turned vector of the cell that
+`np.rot90(array, k, axes=(p, q))` — the array map of C12's `Field.rotate90` — puts there. -/
+theorem rot_quarter_is_rot90 (f : Fld) (hf : WF f) (hs : f.data.shape = f.mesh.n) (hn3 : f.mesh.n.length = 3)
+    (hnd : f.mesh.region.ndim = 3) (hlen : ∀ idx, (f.data.get idx).length = f.nvdim)
+    (p q : Nat) (k : Int) (hp : p < 3) (hq : q < 3) (hpq : p ≠ q) (n? : Option (List Nat))
+    (hn : n? = none ∨ n? = some (T.rotN f.mesh.n p q k)) (g : Fld) (h : rotateOnce f (Rq p q k) n? = .ok g) :
+    g.mesh.n = T.rotN f.mesh.n p q k ∧
+    (∀ a, a < 3 →
+      g.mesh.region.lo a = min (T.rotCoord f.mesh.region.pmin f.mesh.region.center p q k a)
+                               (T.rotCoord f.mesh.region.pmax f.mesh.region.center p q k a) ∧
+      g.mesh.region.hi a = max (T.rotCoord f.mesh.region.pmin f.mesh.region.center p q k a)
+                               (T.rotCoord f.mesh.region.pmax f.mesh.region.center p q k a)) ∧
+    ∃ ord, ordFor f = .ok ord ∧
+      ∀ i j l, i < (T.rotN f.mesh.n p q k).getD 0 0 → j < (T.rotN f.mesh.n p q k).getD 1 0 → l < (T.rotN f.mesh.n p q k).getD 2 0 →
+        g.data.get [i, j, l] = rotVal f.nvdim (Rq p q k) ord ((T.rot90 f.data p q k).get [i, j, l]) := by
+  have hL := Rq_isLat p q k hp hq hpq
+  have hnt : T.rotN f.mesh.n p q k = tab 3 fun i => f.mesh.nAt (pinv (piq p q k) i) := rotN_eq_tab f.mesh.n hn3 p q k hp hq hpq
+  rw [hnt] at hn ⊢
+  obtain ⟨c1, _, ord, ho, hv⟩ := rot_lattice_copies_cells f hf hlen hL n? hn g h
+  refine ⟨c1, ?_, ord, ho, ?_⟩
+  · intro a ha
+    obtain ⟨reg, nm, _, hreg, hmk, _, hg⟩ := rotateOnce_ok_inv f _ _ g h
+    obtain ⟨e1, _⟩ := mkN?_ok_inv reg _ nm hmk
+    have := quarter_region_c12 f hf.1 hnd p q k hp hq hpq reg hreg a ha
+    rw [hg]; show nm.region.lo a = _ ∧ nm.region.hi a = _
+    rw [e1]; exact this
+  · intro i j l hi hj hl
+    rw [getD_tab _ _ _ _ (by omega)] at hi hj hl
+    have hidx : ∀ a, a < 3 → [i, j, l].getD a 0 < f.mesh.nAt (pinv (piq p q k) a) := by
       intro a ha
-      have := ordFor_lt f ord ho (by omega) a ha
-      omega
-  rw [valuesAt_eq_rot_origAt f Rz ord _ hv, quarter_backPos f hf.1 hc reg hreg nm e1 e2 i j k hi]
-  congr 1
-  have hd : f.data.get [j, f.mesh.nAt 1 - 1 - i, k]
-      = tab f.nvdim fun c => (f.data.get [j, f.mesh.nAt 1 - 1 - i, k]).getD c 0 :=
-    eq_tab_of_getD _ _ _ 0 (hlen _) (fun _ _ => rfl)
-  rw [hd]
-  apply eq_tab_of_getD _ _ _ 0 (origAt_length f _)
-  intro c hcn
-  exact origAt_centre f hf.1 j (f.mesh.nAt 1 - 1 - i) k hj (by omega) hk c hcn _ rfl rfl rfl
+      have : a = 0 ∨ a = 1 ∨ a = 2 := by omega
+      rcases this with e | e | e <;> subst e <;> assumption
+    rw [hv _ hidx, T.rot90_get, hs]
+    have hsrc : [latSrc f.mesh.nAt (piq p q k) (sgq p q k) [i, j, l] 0, latSrc f.mesh.nAt (piq p q k) (sgq p q k) [i, j, l] 1,
+        latSrc f.mesh.nAt (piq p q k) (sgq p q k) [i, j, l] 2] = T.srcIdx f.mesh.n p q k [i, j, l] :=
+      latSrc_eq_srcIdx f.mesh.n hn3 p q k hp hq hpq [i, j, l] rfl
+    rw [hsrc]
 
-/-- … and for a 3-vector field whose components are mapped one-to-one to the axes the
-rotation of a cell value by the quarter turn is C12's `rotVec` with `k = 1` on the two
-mapped components. -/
-theorem quarter_vector_is_rotVec (ord : List Nat) (v : List Rat) (hv : v.length = 3)
-    (h0 : ord.getD 0 0 < 3) (h1 : ord.getD 1 0 < 3) (h2 : ord.getD 2 0 < 3)
-    (d01 : ord.getD 0 0 ≠ ord.getD 1 0) (d02 : ord.getD 0 0 ≠ ord.getD 2 0) (d12 : ord.getD 1 0 ≠ ord.getD 2 0) :
-    rotVal 3 Rz ord v = T.rotVec v (ord.getD 0 0) (ord.getD 1 0) 1 :=
-  rotVal_Rz ord v hv h0 h1 h2 d01 d02 d12
+/-- … and for a 3-vector field whose components are mapped one-to-one to the axes (`ord` any
+of the six permutations, cyclic ones included) the rotation of a cell value by the quarter turn
+`Rq p q k` is C12's `rotVec` with the same `k` on the two components mapped to the plane. -/
+theorem quarter_vector_is_rotVec (p q : Nat) (k : Int) (hp : p < 3) (hq : q < 3) (hpq : p ≠ q)
+    (ord : List Nat) (hperm : PermOrd ord) (v : List Rat) (hv : v.length = 3) :
+    rotVal 3 (Rq p q k) ord v = T.rotVec v (ord.getD p 0) (ord.getD q 0) k :=
+  rotVal_Rq p q k hp hq hpq hperm v hv
 
-/-- non-vacuity: the example fields have square cells in the x–y plane and are quarter-turned -/
-example : Rz.IsRot ∧ exF.mesh.cellAt 0 = exF.mesh.cellAt 1 ∧
-    isOk (rotateOnce exF Rz (some [exF.mesh.nAt 1, exF.mesh.nAt 0, exF.mesh.nAt 2])) = true ∧
-    isOk (rotateOnce exV Rz (some [exV.mesh.nAt 1, exV.mesh.nAt 0, exV.mesh.nAt 2])) = true := by decide +kernel
+/-- **object level: FieldRotator's quarter turn IS C12's `Field.rotate90`.** Whenever the model
+of `Field.rotate90(ax1, ax2, k)` (C12; about the centre, copying form) accepts a well-formed field
+with a complete one-to-one mapping, `rotate` with the quarter-turn matrix of that plane — with
+the turned cell counts or the automatic ones — is accepted too and produces the same region
+corners, the same cell counts and the same value in every cell (validity, names and units are
+NOT the same: the rotator starts a fresh all-valid field with default names — `rot_metadata`). -/
+theorem rot_quarter_matches_rotate90 (f : Fld) (hf : WF f) (hF : T.FldInv f) (hnd : f.mesh.region.ndim = 3)
+    (hlen : ∀ idx, (f.data.get idx).length = f.nvdim) (ord : List Nat) (ho : ordFor f = .ok ord)
+    (hkey : ∀ x ∈ f.vmap, ∀ y ∈ f.vmap, x.1 = y.1 → x = y) (hval : ∀ x ∈ f.vmap, ∀ y ∈ f.vmap, x.2 = y.2 → x = y)
+    (a1 a2 : String) (k : Int) (x g' : Fld) (h' : T.rotate90F f a1 a2 k none false = .ok (x, g')) :
+    ∃ p q g, p < 3 ∧ q < 3 ∧ p ≠ q ∧ f.mesh.region.dim2index a1 = .ok p ∧ f.mesh.region.dim2index a2 = .ok q ∧
+      rotateOnce f (Rq p q k) (some g'.mesh.n) = .ok g ∧ rotateOnce f (Rq p q k) none = .ok g ∧
+      (∀ a, a < 3 → g.mesh.region.lo a = g'.mesh.region.lo a ∧ g.mesh.region.hi a = g'.mesh.region.hi a) ∧
+      g.mesh.n = g'.mesh.n ∧
+      ∀ i0 i1 i2, i0 < g'.mesh.nAt 0 → i1 < g'.mesh.nAt 1 → i2 < g'.mesh.nAt 2 →
+        g.data.get [i0, i1, i2] = g'.data.get [i0, i1, i2] :=
+  quarter_matches_rotate90F f hf hF hnd hlen ord ho hkey hval a1 a2 k x g' h'
+
+/-- non-vacuity: the example fields (anisotropic: 4×4×3 cells) are quarter-turned in all three
+planes, also with negative `k` and automatic `n`; C12's `Field.rotate90` accepts them; the vector
+example's mapping `p ↦ y, q ↦ x, r ↦ z` is one-to-one and its `ordered_idx` is a permutation -/
+example : isOk (rotateOnce exF (Rq 1 2 (-1)) none) = true ∧ isOk (rotateOnce exV (Rq 2 0 7) (some (T.rotN exV.mesh.n 2 0 7))) = true ∧
+    isOk (rotateOnce exV (Rq 0 1 2) none) = true := by decide +kernel
+example : isOk (T.rotate90F exV "z" "x" 3 none false) = true ∧ isOk (T.rotate90F exF "y" "z" (-1) none false) = true := by
+  decide +kernel
+example : T.FldInv exV ∧ exV.mesh.region.ndim = 3 ∧ PermOrd [1, 0, 2] ∧ PermOrd [1, 2, 0] := by
+  unfold T.FldInv Mesh.Inv Region.Inv PermOrd; decide +kernel
+example : (∀ x ∈ exV.vmap, ∀ y ∈ exV.vmap, x.1 = y.1 → x = y) ∧ (∀ x ∈ exV.vmap, ∀ y ∈ exV.vmap, x.2 = y.2 → x = y) := by
+  decide +kernel
+/-- the rotation about the body diagonal `(x, y, z) ↦ (z, x, y)` is a lattice rotation that is
+not a quarter turn -/
+example : IsLat (M3.ofQuat 1 1 1 1) (fun j => (j + 1) % 3) (fun _ => 1) := by
+  refine ⟨fun j _ => Nat.mod_lt _ (by omega), fun i j hi hj e => by omega, fun _ _ => Or.inl rfl, ?_⟩
+  intro i j hi hj
+  have ci : i = 0 ∨ i = 1 ∨ i = 2 := by omega
+  have cj : j = 0 ∨ j = 1 ∨ j = 2 := by omega
+  rcases ci with e1 | e1 | e1 <;> rcases cj with e2 | e2 | e2 <;> subst e1 <;> subst e2 <;> decide +kernel
 
 /-! ## the state machine: composition, clear -/
 
@@ -521,6 +777,7 @@ theorem accumulated_is_rotation (s : Rotator) (hs : s.rot.IsRot) (ops : List Op)
     · cases op with
       | rotate Q n => rw [step_rotate_rot]; exact (hops Q n (by simp)).mul hs
       | clear => exact M3.isRot_one
+      | unknown => exact hs
     · intro Q n hm; exact hops Q n (by simp [hm])
 
 /-- instance: rotate, clear, rotate twice — the accumulated matrix is the product of the last two -/
@@ -530,6 +787,159 @@ example : ∃ s0, init? exF = .ok s0 ∧
   refine ⟨s0, h0, ?_⟩
   rw [(accumulated_rotation exF s0 h0 _).1]
   decide +kernel
+
+/-- **the accumulated rotation acts in call order.** The ordered product of the rotations
+issued since the last clear maps a vector as the rotations do one after the other, first call
+first; its inverse (used to resample the positions) undoes them last call first; and it is a
+proper rotation whenever every factor is. -/
+theorem accumulated_acts_in_call_order (Qs : List M3) (v : V3) :
+    (prodL Qs).apply v = Qs.foldl (fun u Q => Q.apply u) v ∧
+    (prodL Qs).tr.apply v = Qs.foldr (fun Q u => Q.tr.apply u) v ∧
+    ((∀ Q ∈ Qs, Q.IsRot) → (prodL Qs).IsRot) :=
+  ⟨prodL_apply Qs v, prodL_tr_apply Qs v, prodL_isRot Qs⟩
+
+/-- **values after any history.** After ANY history `ops` (rotations, clears, refused calls)
+followed by a successful `rotate Q n`, the current field is the single rotation of the ORIGINAL
+field by the ordered product `Q·Q_k⋯Q_1` of the rotations since the last clear: every cell holds
+that product applied (through the component permutation) to the multilinear interpolant of the
+original at the cell centre taken back through `Q_1ᵀ(Q_2ᵀ(⋯Qᵀ(c − c₀)))` — no accumulation of
+interpolation error, for any number of calls. -/
+theorem history_values (f : Fld) (hf : WF f) (s0 : Rotator) (h0 : init? f = .ok s0) (ops : List Op) (Q : M3)
+    (n? : Option (List Nat)) (g : Fld) (hg : rotateOnce f (Q.mul (prodL (seg [] ops))) n? = .ok g) :
+    (run s0 (ops ++ [.rotate Q n?])).cur = g ∧ (run s0 (ops ++ [.rotate Q n?])).rot = prodL (seg [] ops ++ [Q]) ∧
+    ∃ ord, ordFor f = .ok ord ∧ ∀ idx,
+      g.data.get idx = rotVal f.nvdim (prodL (seg [] ops ++ [Q])) ord
+        (origAt f (backPos f (prodL (seg [] ops ++ [Q])) g.mesh idx)) ∧
+      backPos f (prodL (seg [] ops ++ [Q])) g.mesh idx
+        = (seg [] ops ++ [Q]).foldr (fun A u => A.tr.apply u) ((V3.ofList (g.mesh.centre idx)).sub (centreV f.mesh)) := by
+  obtain ⟨hr, hok, _⟩ := history_eq_single f s0 h0 ops Q n?
+  rw [prodL_append]
+  obtain ⟨ord, ho, hv⟩ := rot_general f hf _ n? g hg
+  refine ⟨hok g hg, hr, ord, ho, fun idx => ⟨hv idx, ?_⟩⟩
+  rw [← prodL_append]
+  unfold backPos
+  exact prodL_tr_apply _ _
+
+/-- **any history of lattice rotations copies cells of the original.** Signed permutation
+matrices are closed under products (`IsLat.mul`), every quarter turn `Rq p q k` is one
+(`LatM.rq`): so after ANY history of quarter turns in any planes (clears and refused calls
+interspersed) a further quarter turn with automatic `n` leaves a field whose accumulated
+matrix is again a signed permutation `(π, s)`, whose cell counts are the original ones permuted
+by `π`, and in which every cell holds the rotated value of exactly one cell of the ORIGINAL
+field — no interpolation, for any number of calls and any cell sizes. -/
+theorem lattice_history_copies_cells (f : Fld) (hf : WF f) (hlen : ∀ idx, (f.data.get idx).length = f.nvdim)
+    (s0 : Rotator) (h0 : init? f = .ok s0) (ops : List Op) (hops : ∀ Q n, Op.rotate Q n ∈ ops → LatM Q)
+    (Q : M3) (hQ : LatM Q) (g : Fld) (hg : rotateOnce f (Q.mul (prodL (seg [] ops))) none = .ok g) :
+    (run s0 (ops ++ [.rotate Q none])).cur = g ∧
+    ∃ π s, IsLat (Q.mul (prodL (seg [] ops))) π s ∧ g.mesh.n = (tab 3 fun i => f.mesh.nAt (pinv π i)) ∧
+      ∃ ord, ordFor f = .ok ord ∧ ∀ idx, (∀ i, i < 3 → idx.getD i 0 < f.mesh.nAt (pinv π i)) →
+        g.data.get idx = rotVal f.nvdim (Q.mul (prodL (seg [] ops))) ord
+          (f.data.get [latSrc f.mesh.nAt π s idx 0, latSrc f.mesh.nAt π s idx 1, latSrc f.mesh.nAt π s idx 2]) := by
+  obtain ⟨_, hok, _⟩ := history_eq_single f s0 h0 ops Q none
+  have hP : LatM (prodL (seg [] ops)) := LatM.prodL _ (seg_mem [] ops LatM (fun _ h => by cases h) hops)
+  obtain ⟨π, s, hL⟩ := hQ.mul hP
+  obtain ⟨c1, _, ord, ho, hv⟩ := rot_lattice_copies_cells f hf hlen hL none (Or.inl rfl) g hg
+  exact ⟨hok g hg, π, s, hL, c1, ord, ho, hv⟩
+
+example : LatM (Rq 0 1 1) ∧ LatM (Rq 1 2 (-3)) ∧ LatM ((Rq 2 0 5).mul (Rq 0 1 1)) :=
+  ⟨LatM.rq 0 1 1 (by omega) (by omega) (by omega), LatM.rq 1 2 (-3) (by omega) (by omega) (by omega),
+   (LatM.rq 2 0 5 (by omega) (by omega) (by omega)).mul (LatM.rq 0 1 1 (by omega) (by omega) (by omega))⟩
+
+/-- **a rotation that is undone restores the original.** If after any history the next rotation
+brings the accumulated product back to the identity (for instance `rotate Q; rotate Qᵀ`), then
+— with the original cell counts or the automatic ones — the current field has the original
+region corners and cell counts and the ORIGINAL value in every cell, exactly. -/
+theorem rotation_undone_restores (f : Fld) (hf : WF f) (hlen : ∀ idx, (f.data.get idx).length = f.nvdim)
+    (hperm : f.nvdim = 3 → ∀ ord, ordFor f = .ok ord → PermOrd ord)
+    (s0 : Rotator) (h0 : init? f = .ok s0) (ops : List Op) (Q : M3) (hQ : Q.mul (prodL (seg [] ops)) = M3.one)
+    (n? : Option (List Nat)) (hn : n? = none ∨ n? = some [f.mesh.nAt 0, f.mesh.nAt 1, f.mesh.nAt 2])
+    (g : Fld) (hg : rotateOnce f M3.one n? = .ok g) :
+    (run s0 (ops ++ [.rotate Q n?])).rot = M3.one ∧ (run s0 (ops ++ [.rotate Q n?])).cur = g ∧
+    (∀ a, a < 3 → g.mesh.region.lo a = f.mesh.region.lo a ∧ g.mesh.region.hi a = f.mesh.region.hi a ∧
+                  g.mesh.nAt a = f.mesh.nAt a) ∧
+    ∀ i j k, i < f.mesh.nAt 0 → j < f.mesh.nAt 1 → k < f.mesh.nAt 2 → g.data.get [i, j, k] = f.data.get [i, j, k] := by
+  obtain ⟨hr, hok, _⟩ := history_eq_single f s0 h0 ops Q n?
+  rw [hQ] at hr hok
+  have hn' : n? = none ∨ n? = some (tab 3 fun i => f.mesh.nAt (pinv (fun j => j) i)) := hn
+  obtain ⟨c1, c2, ord, ho, hv⟩ := rot_lattice_copies_cells f hf hlen one_isLat n? hn' g hg
+  refine ⟨hr, hok g hg, ?_, ?_⟩
+  · intro a ha
+    obtain ⟨l1, l2⟩ := c2 a ha
+    rw [pinv_id a ha] at l1 l2
+    refine ⟨by rw [l1]; unfold centreAt Region.edge; ring, by rw [l2]; unfold centreAt Region.edge; ring, ?_⟩
+    unfold Mesh.nAt at *
+    rw [c1, getD_tab _ _ _ _ ha, pinv_id a ha]
+  · intro i j k hi hj hk
+    have hidx : ∀ a, a < 3 → [i, j, k].getD a 0 < f.mesh.nAt (pinv (fun j => j) a) := by
+      intro a ha
+      rw [pinv_id a ha]
+      have : a = 0 ∨ a = 1 ∨ a = 2 := by omega
+      rcases this with e | e | e <;> subst e <;> assumption
+    rw [hv _ hidx]
+    have hsrc : ∀ a, latSrc f.mesh.nAt (fun j => j) (fun _ => 1) [i, j, k] a = [i, j, k].getD a 0 := by
+      intro a; unfold latSrc; rw [if_pos rfl]
+    rw [hsrc 0, hsrc 1, hsrc 2]
+    simp only [List.getD_cons_zero, List.getD_cons_succ]
+    rcases hf.2 with h1 | ⟨h3, _⟩
+    · unfold rotVal; rw [if_pos h1]
+    · rw [h3]
+      exact rotVal_one (hperm h3 ord ho) _ (by rw [hlen, h3])
+
+/-- `rotate Q; rotate Qᵀ`: the instance of `rotation_undone_restores` the property names -/
+theorem rotate_then_inverse (Q : M3) (hQ : Q.IsRot) (n1 : Option (List Nat)) :
+    Q.tr.mul (prodL (seg [] [.rotate Q n1])) = M3.one := by
+  show Q.tr.mul (M3.one.mul Q) = M3.one
+  rw [M3.one_mul]; exact hQ.1
+
+example : isOk (rotateOnce exF M3.one none) = true ∧ isOk (rotateOnce exV M3.one (some [4, 4, 3])) = true ∧
+    exR.tr.mul (prodL (seg [] [.rotate exR none])) = M3.one := by
+  decide +kernel
+
+/-- **unknown method names are refused without a trace**: the call fails, nothing changes, and
+any history reaches the same state as the history with those calls removed. -/
+theorem unknown_method_refused (s : Rotator) (ops : List Op) :
+    step s .unknown = (s, some .value) ∧ run s (ops.filter fun o => !o.isUnknown) = run s ops :=
+  ⟨rfl, run_skip_unknown s ops⟩
+
+/-! ## acceptance: well-formed calls are never refused -/
+
+/-- **constructor.** Scalar and 3-vector fields on 3-d meshes whose labels are all mapped to
+axes are accepted, with the identity rotation and the original field as state. -/
+theorem constructor_accepts (f : Fld) (hv : f.nvdim = 1 ∨ f.nvdim = 3) (hnd : f.mesh.region.ndim = 3)
+    (hmap : f.nvdim = 3 → ∀ v ∈ f.vdims.getD [], ∃ d, Fld.lookup f.vmap v = some d ∧ f.mesh.region.dims.contains d = true) :
+    init? f = .ok ⟨f, M3.one, f⟩ :=
+  init_accepts f hv hnd hmap
+
+/-- **complete mappings give a component order**: if every spatial axis is the image of some
+mapped label and every mapped label is a component label, `ordered_idx` exists (scalar fields
+need nothing). Together with `unmapped_axis_refused` this is exact. -/
+theorem complete_mapping_accepted (f : Fld)
+    (hsur : ∀ a, a < 3 → ∃ p ∈ f.vmap, p.2 = f.mesh.region.dims.getD a "")
+    (hkeys : ∀ p ∈ f.vmap, ∃ k, f.vdimIndex p.1 = some k) : ∃ ord, ordFor f = .ok ord :=
+  ordFor_accepts f hsur hkeys
+
+/-- **`rotate` is never refused on well-formed input.** For a well-formed field with a component
+order, after ANY history of proper rotations / clears / refused calls, a further proper rotation
+with no `n` or with three positive counts succeeds, and the new field has the requested (or
+automatic) counts on the bounding box. -/
+theorem rotate_accepted (f : Fld) (hm : Mesh3 f.mesh) (ord : List Nat) (ho : ordFor f = .ok ord)
+    (s0 : Rotator) (h0 : init? f = .ok s0) (ops : List Op) (hops : ∀ Q n, Op.rotate Q n ∈ ops → Q.IsRot)
+    (Q : M3) (hQ : Q.IsRot) (n? : Option (List Nat)) (hn : ∀ n, n? = some n → n.length = 3 ∧ ∀ k ∈ n, k ≠ 0) :
+    (step (run s0 ops) (.rotate Q n?)).2 = none ∧
+    newRegion f (Q.mul (prodL (seg [] ops))) = .ok (step (run s0 ops) (.rotate Q n?)).1.cur.mesh.region ∧
+    (step (run s0 ops) (.rotate Q n?)).1.cur.mesh.n
+      = n?.getD (autoN f (Q.mul (prodL (seg [] ops))) (boxRegion f (Q.mul (prodL (seg [] ops))))) := by
+  obtain ⟨hr, hor⟩ := accumulated_rotation f s0 h0 ops
+  have hs0 := init?_ok_inv f s0 h0
+  have hrot : (run s0 ops).rot.IsRot := accumulated_is_rotation s0 (by rw [hs0]; exact M3.isRot_one) ops hops
+  have hR : (Q.mul (prodL (seg [] ops))).IsRot := by rw [← hr]; exact hQ.mul hrot
+  have hacc := rotateOnce_accepts f hm hR ord ho n? hn
+  have hstep := step_rotate_ok (run s0 ops) Q n? _ (by rw [hor, hr]; exact hacc)
+  rw [hstep]
+  exact ⟨rfl, newRegion_accepts f hm hR, rfl⟩
+
+example : ∃ s0, init? exV = .ok s0 ∧ ordFor exV = .ok [1, 0, 2] ∧ exR.IsRot ∧ exR2.IsRot :=
+  ⟨_, constructor_accepts exV (Or.inr rfl) rfl (by decide +kernel), exOrdV, by decide +kernel, by decide +kernel⟩
 
 /-! ## refusals -/
 
@@ -566,6 +976,66 @@ theorem rot_refusals (f : Fld) :
       · rw [hd]
         simp only [Bool.not_eq_true] at hc ⊢
         exact hc
+
+/-- **the constructor's acceptance, exactly.** `FieldRotator(field)` succeeds if and only if the
+field is scalar or 3-vector, the mesh is three-dimensional and (for vectors) every component
+label is mapped to an axis name of the mesh. -/
+theorem constructor_iff (f : Fld) :
+    (∃ s, init? f = .ok s) ↔
+      ((f.nvdim = 1 ∨ f.nvdim = 3) ∧ f.mesh.region.ndim = 3 ∧
+       (f.nvdim = 3 → ∀ v ∈ f.vdims.getD [], ∃ d, Fld.lookup f.vmap v = some d ∧ f.mesh.region.dims.contains d = true)) := by
+  constructor
+  · rintro ⟨s, hs⟩
+    obtain ⟨r1, r2, r3⟩ := rot_refusals f
+    have hv : f.nvdim = 1 ∨ f.nvdim = 3 := by
+      by_contra hc
+      rw [r1 (fun e => hc (Or.inl e)) (fun e => hc (Or.inr e))] at hs; cases hs
+    have hnd : f.mesh.region.ndim = 3 := by
+      by_contra hc
+      rw [r2 hc] at hs; cases hs
+    refine ⟨hv, hnd, ?_⟩
+    intro h3 v hv'
+    cases hl : Fld.lookup f.vmap v with
+    | none => rw [r3 h3 v hv' (Or.inl hl)] at hs; cases hs
+    | some d =>
+      cases hc : f.mesh.region.dims.contains d with
+      | false => rw [r3 h3 v hv' (Or.inr ⟨d, hl, hc⟩)] at hs; cases hs
+      | true => exact ⟨d, rfl, hc⟩
+  · rintro ⟨hv, hnd, hmap⟩
+    exact ⟨_, constructor_accepts f hv hnd hmap⟩
+
+/-- **malformed `n` is refused, but the rotation stays accumulated.** Cell counts of the wrong
+length or with a zero entry make the call fail and leave the current field untouched; the
+accumulated rotation has already been multiplied (as in the code, where `_rotation` is updated
+before the mesh is built) — the next call continues from it. -/
+theorem bad_n_refused (s : Rotator) (Q : M3) (n : List Nat) (hbad : n.length ≠ 3 ∨ 0 ∈ n) :
+    (step s (.rotate Q (some n))).2 ≠ none ∧ (step s (.rotate Q (some n))).1.cur = s.cur ∧
+    (step s (.rotate Q (some n))).1.rot = Q.mul s.rot := by
+  have hro : ∃ e, rotateOnce s.orig (Q.mul s.rot) (some n) = .error e := by
+    unfold rotateOnce
+    cases hreg : newRegion s.orig (Q.mul s.rot) with
+    | error e1 => exact ⟨e1, rfl⟩
+    | ok reg =>
+      simp only [Option.getD_some]
+      have hnd : reg.ndim = 3 := by unfold Region.ndim; rw [(newRegion_ok_inv _ _ reg hreg).1]; simp
+      have hmk : ∃ e, Mesh.mkN? reg n = .error e := by
+        unfold Mesh.mkN?
+        rcases hbad with hl | hz
+        · exact ⟨.value, by rw [if_pos (by rw [hnd]; exact hl)]⟩
+        · by_cases hl : n.length ≠ reg.ndim
+          · exact ⟨.value, by rw [if_pos hl]⟩
+          · rw [if_neg hl]
+            have : n.any (· = 0) = true := by
+              rw [List.any_eq_true]; exact ⟨0, hz, by simp⟩
+            exact ⟨.value, by rw [this]; rfl⟩
+      obtain ⟨e, he⟩ := hmk
+      rw [he]; exact ⟨e, rfl⟩
+  obtain ⟨e, he⟩ := hro
+  rw [step_rotate_err s Q _ e he]
+  exact ⟨by simp, rfl, rfl⟩
+
+example : ([2, 2] : List Nat).length ≠ 3 ∨ 0 ∈ ([2, 2] : List Nat) := Or.inl (by decide)
+example : ([2, 0, 1] : List Nat).length ≠ 3 ∨ 0 ∈ ([2, 0, 1] : List Nat) := Or.inr (by decide)
 
 /-- A vector field with a spatial axis no component is mapped to (e.g. a non-injective
 mapping, which the constructor lets through) is refused by every `rotate`: the call fails,
